@@ -208,7 +208,10 @@ func (rt *Transfer) ReceiveFileList() ([]*File, error) {
 		fmt.Fprintln(rt.Env.Stdout, "receiving file list...")
 		fmt.Fprint(rt.Env.Stdout, "0 files to consider")
 	}
-	lastFileEntry := new(File)
+	// The values an entry inherits when the sender flags them as "same as the
+	// previous entry" start out as zero, also the modification time (1970-01-01,
+	// not time.Time's zero value, which is year 1).
+	lastFileEntry := &File{ModTime: time.Unix(0, 0)}
 	var fileList []*File
 	for {
 		b, err := rt.Conn.ReadByte()
